@@ -36,6 +36,8 @@ BOUND = {"EventRecord": 96, "CommitProof": 120, "CommitState": 150, "VaultCommit
          "SecretRow": 72, "Secret": 40, "SecretMeta": 56, "Summary": 64, "VaultMeta": 40}
 SPLIT_FIRST_BYTE = {"Secret": 18}
 HEAVY = {"Header", "Vault", "SecretMeta", "SecretRow", "Secret", "Summary"}
+# composite types that still get one collection element per value in the quick tier (tags, recipients, ...)
+QUICK_ONE_ELEMENT = set(os.environ.get("VERIF_C14_ONE", "SecretMeta").split(","))
 EOF_DELIMITED = {"Vault": 180}
 THOROUGH_ONLY = {"SecretRow", "Vault"}
 
@@ -146,6 +148,8 @@ def run_entry(prog, entry, loop_bound, max_paths, prefixes=None, time_budget=Non
             desc = "%s: %s for input %s; native: %s" % (entry.name, what, data.hex()[:96], json.dumps(nat)[:300])
             out["reports"].append((key, desc, dict(op="roundtrip", ty=entry.ty, bytes=data.hex(), what=what, native=nat, **detail)))
         elif nondet:
+            if os.environ.get("VERIF_DEBUG"):
+                print("DEBUG unconfirmed", entry.name, what, data.hex(), json.dumps(nat)[:400], [ev for k, ev in res.events if k == "nondet_model"][:3], flush=True)
             gap("unconfirmed difference behind an assumed-success external parser: %s" % what)
         else:
             out["replays_bad"] += 1
@@ -268,6 +272,8 @@ def entries_for(tier):
         if ty in HEAVY:
             # composite types whose components have entries of their own: smaller bounds in the quick tier
             tcap, tbudget = (4, 0) if tier == "quick" else (12, 1)
+            if ty in QUICK_ONE_ELEMENT and tier == "quick":
+                tbudget = 1
         if ty in SPLIT_FIRST_BYTE:
             k = SPLIT_FIRST_BYTE[ty]
             for b in range(k):
